@@ -122,16 +122,16 @@ def engine(prop, seed, tier, mode, nruns, wall, workers, first_run=0):
             if "plan_sample" in r and len(agg["samples"]) < 3:
                 agg["samples"].append(r.get("sample") or r["plan_sample"])
 
-    def pool_pass(task_list, final):
-        """run tasks in one pool; returns the tasks that were lost because a worker process died"""
-        lost = []
-        with cf.ProcessPoolExecutor(max_workers=workers, mp_context=ctx) as ex:
+    def pool_pass(task_list, final, nworkers):
+        """run tasks in one pool; returns (tasks in flight when a worker process died, tasks never started)"""
+        inflight, queued = [], []
+        with cf.ProcessPoolExecutor(max_workers=nworkers, mp_context=ctx) as ex:
             pending = {}
             it = iter(task_list)
             broken = [False]
 
             def submit_more():
-                while len(pending) < workers * 2 and not broken[0]:
+                while len(pending) < nworkers * 2 and not broken[0]:
                     if time.time() - t0 > wall and not final:
                         agg["wall_hit"] = True
                         return
@@ -143,7 +143,7 @@ def engine(prop, seed, tier, mode, nruns, wall, workers, first_run=0):
                         pending[ex.submit(_batch, t)] = t
                     except cf.process.BrokenProcessPool:
                         broken[0] = True
-                        lost.append(t)
+                        queued.append(t)
             submit_more()
             while pending:
                 done, _ = cf.wait(list(pending), timeout=max(1.0, wall * 3 + 120 - (time.time() - t0)),
@@ -159,7 +159,7 @@ def engine(prop, seed, tier, mode, nruns, wall, workers, first_run=0):
                         absorb(f.result())
                     except cf.process.BrokenProcessPool:
                         broken[0] = True
-                        lost.append(task)
+                        inflight.append(task)
                     except BaseException as e:      # noqa
                         agg["harness_errors"].append("worker failed on runs %s: %r" % (task[3], e))
                 # stop early once plenty of violations are collected (listed known findings do not count, so that
@@ -167,19 +167,29 @@ def engine(prop, seed, tier, mode, nruns, wall, workers, first_run=0):
                 if sum(1 for v in agg["violations"] if v["violation"]["key"] not in known_keys) < 50:
                     submit_more()
             if broken[0]:
-                lost.extend(it)          # never submitted
-        return lost
+                queued.extend(it)          # never submitted
+        return inflight, queued
 
-    lost = pool_pass(tasks, False)
-    if lost:
-        # a worker process died (watchdog, out of memory ...): every plan that was in flight or queued is run again,
-        # one plan per task, so that only the plan that really kills its worker is reported
-        singles = [(t[0], t[1], t[2], [r], t[4]) for t in lost for r in t[3]]
+    def singles(ts):
+        return [(t[0], t[1], t[2], [r], t[4]) for t in ts for r in t[3]]
+
+    inflight, queued = pool_pass(tasks, False, workers)
+    passes = 0
+    while (inflight or queued) and passes < 6:
+        # a worker process died (watchdog, out of memory ...).  The plans that were queued run again first, the ones
+        # that were in flight (one of them is the culprit) last, one plan per task.
+        passes += 1
+        todo = singles(queued) + singles(inflight)
         if time.time() - t0 > wall:
-            singles = singles[:workers * 4]
-        still = pool_pass(singles, True)
-        for t in still:
-            agg["harness_errors"].append("worker died on run %s (twice)" % t[3])
+            todo = singles(inflight)        # out of time: only settle who the culprit is
+        if len(todo) <= workers * 2:
+            break
+        inflight, queued = pool_pass(todo, True, workers)
+    for t in singles(queued) + singles(inflight) if (inflight or queued) else []:
+        # the few remaining suspects: each alone in its own worker
+        a, b = pool_pass([t], True, 1)
+        if a or b:
+            agg["harness_errors"].append("the worker died while executing run %s" % t[3][0])
     agg["stats"] = dict(agg["stats"])
     agg["traces"] = sorted(agg["traces"])
     agg["wall_s"] = time.time() - t0
